@@ -4,7 +4,7 @@
 (* "usable" and state the map clauses on the spec's own ExpectedMap; Emit hands every layout to the harness. *)
 EXTENDS FlexGrid, TLC, Json
 CONSTANTS Ids, Extents, MaxOcc
-VARIABLES maps, before, phase, nocc
+VARIABLES maps, before, phase, nocc, post
 INSTANCE OmsMap
 
 C       == {<<-30, 30>>}
@@ -13,22 +13,30 @@ CL      == {<<-70, -45>>, <<-30, 30>>}
 NarrowC == {<<-20, 20>>}
 TopLow  == {<<-30, 22>>}
 BotHigh == {<<-22, 30>>}
-Menu    == {C, L, CL, NarrowC, TopLow, BotHigh}
-AmpSets == {S \in SUBSET Menu : Cardinality(S) \in {1, 2}}
+Wide    == {<<-70, 30>>}                               \* one band straddling both bands of a C+L amplifier
+Tri     == {<<-70, -45>>, <<-30, -5>>, <<5, 30>>}      \* three bands
+Menu    == {C, L, CL, NarrowC, TopLow, BotHigh, Wide, Tri}
+\* an OMS carries two amplifiers IN ORDER (booster, preamp): the common band must not depend on the order
+AmpPairs == Menu \X Menu
 
-VARIABLE lay                      \* lay[o] = set of amplifiers (each a set of bands) on OMS group o
-Groups == 1..3                    \* group 1: link A-B forward, 2: link A-B reverse, 3: link B-C both directions
+VARIABLE lay                      \* lay[o] = <<booster, preamp>> (each a set of bands) on OMS group o
+Groups == 1..2                    \* group 1: link A-B both directions, 2: link B-C both directions
+AmpsOf(o) == {lay[o][1], lay[o][2]}
 NonEmptyCommon(amps) == {k \in -80..40 : CommonAt(amps, k)} # {}   \* (a set, not \E: TLC would fan out initial states)
-BInit == /\ lay \in [Groups -> AmpSets]
-         /\ \A o \in Groups : NonEmptyCommon(lay[o])
-         /\ maps = <<>> /\ before = <<>> /\ phase = "bands" /\ nocc = 0
-BNext == FALSE /\ UNCHANGED <<lay, maps, before, phase, nocc>>
+BInit == /\ lay \in [Groups -> AmpPairs]
+         /\ \A o \in Groups : NonEmptyCommon(AmpsOf(o))
+         /\ maps = <<>> /\ before = <<>> /\ phase = "bands" /\ nocc = 0 /\ post = <<>>
+BNext == FALSE /\ UNCHANGED <<lay, maps, before, phase, nocc, post>>
 
-Ext == Hull(UNION {lay[o] : o \in Groups})
-TwoFormulationsAgree == \A o \in Groups : MeetAgreesWithPointwise(lay[o], Ext)
-MapCoversExtent      == \A o \in Groups : DOMAIN ExpectedMap(lay[o], Ext) = Ext[1]..Ext[2]
-SomeUsable           == \A o \in Groups : \E k \in Ext[1]..Ext[2] : ExpectedMap(lay[o], Ext)[k] = "F"
-AmpSeq(S) == LET a == CHOOSE x \in S : TRUE IN IF Cardinality(S) = 1 THEN <<a, a>> ELSE <<a, CHOOSE y \in S : y # a>>
-BandSeq(a) == LET lo == CHOOSE b \in a : \A c \in a : b[1] <= c[1] IN IF Cardinality(a) = 1 THEN <<lo>> ELSE <<lo, CHOOSE c \in a : c # lo>>
-Emit == PrintT("@@" \o ToJson([lay |-> [o \in Groups |-> [i \in 1..2 |-> BandSeq(AmpSeq(lay[o])[i])]], ext |-> Ext]))
+Ext == Hull(UNION {AmpsOf(o) : o \in Groups})
+TwoFormulationsAgree == \A o \in Groups : MeetAgreesWithPointwise(AmpsOf(o), Ext)
+MapCoversExtent      == \A o \in Groups : DOMAIN ExpectedMap(AmpsOf(o), Ext) = Ext[1]..Ext[2]
+SomeUsable           == \A o \in Groups : \E k \in Ext[1]..Ext[2] : ExpectedMap(AmpsOf(o), Ext)[k] = "F"
+\* bands of an amplifier as a sequence in increasing order
+BandSeq(a) == LET n == Cardinality(a)
+                  lo(S) == CHOOSE b \in S : \A c \in S : b[1] <= c[1]
+                  b1 == lo(a)
+              IN IF n = 1 THEN <<b1>>
+                 ELSE LET b2 == lo(a \ {b1}) IN IF n = 2 THEN <<b1, b2>> ELSE <<b1, b2, lo(a \ {b1, b2})>>
+Emit == PrintT("@@" \o ToJson([lay |-> [o \in Groups |-> [i \in 1..2 |-> BandSeq(lay[o][i])]], ext |-> Ext]))
 ==============================================================================
